@@ -5,3 +5,13 @@ def run(ctx):
     # concurrent layer: critical-section model over all interleavings + baton-scheduled tie on the real Cache
     cacheconc.obligations(ctx, "C11")
     cacheconc.tie(ctx)
+    # fetch_with values enter the map through the loader task: the order of its critical sections (map insert,
+    # marker removal, completion of the shared future) is tied step by step by the C15 engine; its monitors are
+    # judged by ./check C15, here only the correspondence counts (a value handed to callers before it is published
+    # could be overwritten late: "returns an overwritten value after the overwrite completed")
+    if not ctx.replay:
+        ldrv = ctx.lean_exe("fvdrv_loader")
+        lh = ctx.cargo_build("cache", "loaderh")
+        t = ctx.tie("loader-step-order", [lh, "gen", "--seed", str(ctx.seed), "--cases", "500" if ctx.quick else "2500",
+                                          "--dfs", "2000" if ctx.quick else "8000"], [ldrv])
+        t.monitor_fails = []
